@@ -137,7 +137,7 @@ domain. -/
 theorem c20_accepted_iff_decimal_u32 (p : Int) (c : String) (hp : p = PROTOCOL_CCTP ∨ p = PROTOCOL_HYPERLANE)
     (hlen : 10 ≤ Gen.maxCounterpartyIDLength) :
     validateCounterpartyID c p = true ↔ ∃ n, n < 2 ^ 32 ∧ c = natToDec n := by
-  have hsel : validateCounterpartyID c p = (c != "" && decide (byteLen c ≤ Gen.maxCounterpartyIDLength) && isCanonicalU32 c) := by
+  have hsel : validateCounterpartyID c p = (c != "" && !hasNul c && decide (byteLen c ≤ Gen.maxCounterpartyIDLength) && isCanonicalU32 c) := by
     rcases hp with rfl | rfl <;> simp [validateCounterpartyID, PROTOCOL_CCTP, PROTOCOL_HYPERLANE, PROTOCOL_IBC]
   rw [hsel]
   constructor
@@ -146,11 +146,19 @@ theorem c20_accepted_iff_decimal_u32 (p : Int) (c : String) (hp : p = PROTOCOL_C
     exact (isCanonicalU32_iff c).mp h.2
   · rintro ⟨n, hn, rfl⟩
     simp only [Bool.and_eq_true, bne_iff_ne, ne_eq, decide_eq_true_eq]
-    refine ⟨⟨?_, ?_⟩, (isCanonicalU32_iff _).mpr ⟨n, hn, rfl⟩⟩
+    refine ⟨⟨⟨?_, ?_⟩, ?_⟩, (isCanonicalU32_iff _).mpr ⟨n, hn, rfl⟩⟩
     · intro e
       have := congrArg String.toList e
       simp only [natToDec, String.toList_ofList, String.toList_empty] at this
       exact natDigitsAux_ne_nil _ _ _ (by omega) this
+    · -- digits are not NUL
+      simp only [hasNul, natToDec, String.toList_ofList, Bool.not_eq_true', List.any_eq_false, beq_iff_eq]
+      intro ch hmem e
+      have hd := natDigits_all n
+      rw [List.all_eq_true] at hd
+      have := hd ch hmem
+      rw [e] at this
+      exact absurd this (by decide)
     · rw [byteLen_natToDec]
       have := natDigits_length_le n 10 (by decide) (by omega)
       omega
